@@ -3,7 +3,8 @@
 All sequences up to a depth over {solve (dual / primal / trace / logdet1 / MOSEK path), edits (replace the initial
 condition, add a metric, add an LMI, add / remove a contradicting constraint, decompose a new point, evaluate a held LMI
 and then add it), evaluate every held object, build new derived objects, solver answers 'no value' / 'error'
-(deviations, at most 2)} on four base models.  After the last operation of every sequence (every prefix is itself
+(deviations, at most 2)} on four base models (and, with a reduced alphabet plus 'evaluate the adjoint at a new point', on
+a linear-operator model and on a model whose class records a stationary point by itself).  After the last operation of every sequence (every prefix is itself
 enumerated) the long-lived problem is compared with a FRESHLY BUILT equivalent model (same edits, new PEP(), one solve
 with the same options): values, numbering-free summary of the data sent, certificate and instance for the latest solve,
 eval() of every held object against the current solution, and accessors after a solve without solution."""
@@ -25,6 +26,10 @@ BASE = {
     "quad": dict(cls="SmoothStronglyConvexQuadraticFunction", par=0, pattern="sf", metric="fval", init="dist", n=2),
     "comp": dict(cls="SmoothStronglyConvexFunction", par=0, pattern="sf", comp="sum", step="prox", metric="dist", init="dist",
                  n=1, extras=["lmi_sym"]),
+    # an operator whose class system is built from its own samples AND from those of its adjoint
+    "linop": dict(cls="LinearOperator", par=0, pattern="sf", step="lin_A", metric="grad", init="dist", n=1),
+    # a class that records a stationary point itself while its constraints are generated (at every solve)
+    "qgnone": dict(cls="ConvexQGFunction", par=0, pattern="none", metric="negdist", init="dist", n=1),
 }
 SOLVES = {
     "solve": dict(backend="cvxpy", mode="dual", dr=None),
@@ -37,7 +42,7 @@ SOLVES = {
 }
 FAULTS = ["answer_novalue", "answer_error"]
 EDITS = ["replace_init", "add_metric", "add_lmi", "add_contradiction", "remove_contradiction", "new_block", "held_lmi", "more_samples",
-         "hand_partition_constraint"]
+         "hand_partition_constraint", "adjoint_sample"]
 OTHER = ["eval_held", "new_derived"]
 OPS = list(SOLVES) + FAULTS + EDITS + OTHER
 
@@ -110,6 +115,18 @@ def apply_edit(ctx, op, solved_flag):
             tgt.oracle(z)
             ctx.points["more_z"] = z
             pep.add_constraint((z - ctx.points["x0"]) ** 2 <= 0.25)
+    elif op == "adjoint_sample":
+        # a new evaluation of the ADJOINT only: the operator's own list of samples does not change
+        f = ctx.funcs["f"]
+        if type(f).__name__ != "LinearOperator" or st.get("n_adj", 0) >= 1:
+            return False
+        st["n_adj"] = 1
+        from PEPit import Point
+        y = Point()
+        v = f.T.gradient(y)
+        ctx.points["adj_y"], ctx.points["adj_v"] = y, v
+        pep.add_constraint(y ** 2 <= 1)
+        pep.set_performance_metric(v ** 2)
     elif op == "hand_partition_constraint":
         part = getattr(ctx, "partition", None)
         if part is None or st.get("n_hand", 0) >= 1:
@@ -241,6 +258,7 @@ def run_sequence(mname, seq):
     if callsA is None:
         return dedupe([("resolve:wrapper-not-recorded", "solve did not instantiate the registered wrapper class")]), "norec"
     A["summary"] = summary(callsA, nP, nF)
+    A["nP"] = nP
     A["n_rows"] = len(callsA)
     opts = SOLVES[op]
     tol = solving.tolerance(opts["backend"], opts.get("solver", "CLARABEL"))
@@ -311,6 +329,10 @@ def run_sequence(mname, seq):
             probs.append(("resolve:option-outlived-its-solve", "after an earlier solve capped at 3 iterations the last solve returns %r (%s); "
                           "the same model solved with the same options in a pristine process returns %r (optimal)" % (rA["value"], rA["status"], ref["value"])))
     sB = summary(callsB, nPB, nFB)
+    if A.get("nP") is not None and A["nP"] != nPB:
+        # (the F vector legitimately gets one fresh objective leaf per solve; nothing creates a leaf POINT per solve)
+        probs.append(("resolve:gram-size-differs", "the Gram matrix sent at the last solve is %d x %d, a freshly built equivalent model "
+                      "sends %d x %d" % (A["nP"], A["nP"], nPB, nPB)))
     if A["summary"] != sB:
         probs.append(("resolve:data-differs", "the data sent at the last solve (%d items) differ from what a freshly built "
                                               "equivalent model sends (%d items)" % (A["n_rows"], len(callsB))))
@@ -374,7 +396,13 @@ def _depth(tier):
 
 
 def _ops_for(mname):
-    return [o for o in OPS if not (o in ("new_block", "hand_partition_constraint") and mname != "block")]
+    ops = [o for o in OPS if not (o in ("new_block", "hand_partition_constraint") and mname != "block") and not (o == "adjoint_sample" and mname != "linop")]
+    if mname in ("linop", "qgnone"):
+        # the two extra models exist for their own mechanism: a reduced alphabet keeps the exploration affordable
+        keep = {"solve", "solve_primal", "solve_trace", "solve_mosek", "answer_novalue", "replace_init", "add_metric", "more_samples",
+                "adjoint_sample", "eval_held", "new_derived"}
+        ops = [o for o in ops if o in keep]
+    return ops
 
 
 def shards(tier):
